@@ -6,26 +6,26 @@ from pathlib import Path
 V = Path(__file__).resolve().parent.parent
 CORR = " Model tied to /repo on every run by executing the extracted OCaml model and the implementation (public API, synthesised programs) on the same generated inputs and comparing canonical outcomes; an independent specification-level reference decides violations."
 LEVEL = {
-    "C01": ("proof", "Coq development on the model of DLTypeContext (binding-table soundness, props/C01.v) + correspondence on generated contexts (conforming / one fault / several / boundary corpus, exhaustive small scope in the thorough tier); an accepted context without a consistent assignment is the replay." + CORR, "DESIGN.md 7 C01"),
-    "C02": ("proof", "Coq development (props/C02.v) + correspondence on conforming contexts in every call style; observes call count, identity of the returned object and of the received arguments." + CORR, "DESIGN.md 7 C02"),
-    "C03": ("proof", "Coq theorems C03_check_iff / C03_error_factual / C03_no_other_exception for every annotation the model can construct and every shape (front/back alignment stated with rev, independent of the index arithmetic) + exhaustive small-scope correspondence through TensorTypeBase.check." + CORR, "DESIGN.md 7 C03"),
+    "C01": ("proof", "Theorems C01_no_false_accept / C01_call_no_false_accept / C01_name_single_valued / C01_expression_axis_value (CtxSound, CtxLift: the final binding table is one assignment that every axis of every accepted tensor - arguments and return value, any number of them - agrees with; invariants extends + monotone evaluation). Correspondence: boundary corpus, conforming / one-fault / multi-fault contexts, exhaustive small scope (thorough); reference = independent consistency pass." + CORR, "DESIGN.md 7 C01"),
+    "C02": ("proof", "Theorems C02_no_false_reject / C02_transparent (CtxComplete, CallComplete: a queue that one assignment satisfies, with names inside expressions bound earlier or by the provider, is accepted - no exception at all - and the wrapper returns the body's value). Correspondence: conforming contexts in every call style; call count, identity of result and arguments observed." + CORR, "DESIGN.md 7 C02"),
+    "C03": ("proof", "Theorems C03_check_iff / C03_error_factual / C03_no_other_exception for every annotation the model can construct and every shape (front/back alignment stated with rev, independent of the index arithmetic) + exhaustive small-scope correspondence through TensorTypeBase.check." + CORR, "DESIGN.md 7 C03"),
     "C04": ("proof", "Finite theorem C04_tables (+ supersets, Int = Signed u Unsigned, same table on shared dtypes) re-proved on every run against DTYPES tuples reflected from the running code into coq/gen/GenDtypes.v; the model of `dtype in DTYPES` validated exhaustively against real check() for every class x library x dtype kind.", "DESIGN.md 7 C04"),
-    "C05": ("proof", "Coq theorem C05_parse_eval(+_named): every string of the stratified grammar is accepted by the model of expression_from_string, parsed to the grammar's postfix program and evaluates to the arithmetic value under every identifier-keyed scope (no bound on nesting or length)." + CORR, "DESIGN.md 7 C05"),
-    "C06": ("proof", "Coq development on the model parser (props/C06.v) + correspondence over a corpus of formerly accepted malformed strings, all strings over a 19-token alphabet up to a length bound, token mutations of valid strings and printable noise, against an independent recursive-descent recogniser of the documented grammar." + CORR, "DESIGN.md 7 C06"),
-    "C07": ("proof", "Model of the wrapper's phases (props/C07.v) + correspondence with a side-effect log in the wrapped body: one fault in a single argument position or only in the return value." + CORR, "DESIGN.md 7 C07"),
-    "C08": ("proof", "Model reports are structured values (props/C08.v); single-fault inputs compared field by field, multi-fault inputs for DLTypeError-ness and direct factuality; arithmetic exceptions from undefined expressions are the listed known finding K1." + CORR, "DESIGN.md 7 C08"),
-    "C10": ("proof", "Model of from_hint / DLTypeContext.add (props/C10.v) + correspondence on contexts rich in optional hints and None patterns; unions with non-None alternatives must be refused with TypeError at decoration." + CORR, "DESIGN.md 7 C10"),
-    "C11": ("proof", "Model of tuple flattening (props/C11.v) + correspondence on tuple hints of length 1-3 with plain positions, as parameter and return; reported element names compared." + CORR, "DESIGN.md 7 C11"),
-    "C14": ("proof", "Model of the four entry points (props/C14.v) + the same field list rendered as function, dataclass, NamedTuple and pydantic model with shuffled keyword order; the four outcomes must agree with each other and with the model." + CORR, "DESIGN.md 7 C14"),
-    "C15": ("proof", "Finite theorem over the regenerated tables (shared dtypes: library-independent) + every context executed under three library assignments (numpy / torch / mixed incl. jax)." + CORR, "DESIGN.md 7 C15"),
-    "C09": ("proof", "World model with the two channels the code used to have (annotation flag shared through aliases, provider mapping adopted as binding table): isolation proved for the repaired semantics, refuted for the legacy one (props/C09.v) + histories over families of functions sharing aliases and long-lived provider dicts, random decoration order, 8-thread runs and nested checked calls; thread interleavings are tested, not proved (GIL scheduling cannot be exhibited by the model)." + CORR, "DESIGN.md 7 C09"),
-    "C12": ("proof", "Model of the provider protocol (props/C12.v: the provider value becomes the initial binding table of exactly this call) + histories with changing provider values (fresh / long-lived dict, rebinding / in-place), self providers on methods, objects without the protocol, self on plain functions." + CORR, "DESIGN.md 7 C12"),
-    "C13": ("proof", "Theorems over Config.v for every environment string, enabled argument and decorator kind (C13_identity, C13_explicit_wins, C13_environment) + every combination of DLTYPE_DISABLE x DLTYPE_DEBUG_MODE x logging level in fresh interpreters x enabled argument x decorator kind on a fixed corpus; pydantic-settings' bool table is trusted and probed by the same runs.", "DESIGN.md 7 C13"),
-    "C16": ("proof", "PARTIAL. Proved on the model: the body's value / exception reaches the caller unchanged once arguments are accepted. Name/doc/signature, argument forwarding for every parameter kind, exception identity, method kinds, and NamedTuple / dataclass fields, equality, repr, isinstance, immutability and pickling are CPython object-model behaviour without decision logic: compared against undecorated twins by the harness (a test, labelled as such in the evidence).", "DESIGN.md 7 C16"),
-    "C17": ("proof", "PARTIAL. Model of the pydantic after-validator (per-validation context in field order, props/C17.v) + histories of constructions / model_validate / assignments, nested models, class-definition dtype cross-check for npt.NDArray; model_dump / iteration / repr are compared by the harness only; validate_assignment is the listed known finding K2." + CORR, "DESIGN.md 7 C17"),
-    "C18": ("proof", "Model of the symbolic printer (Symbolic.v) tied to the grammar (props/C18.v) + random operator trees built by Python's own evaluation of generated source: printed string vs model, demanded axis size vs plain integer evaluation of the same Python expression; negative constants are the listed known finding K4." + CORR, "DESIGN.md 7 C18"),
-    "C19": ("proof", "PARTIAL. Proved: the wrapper is extensionally the body on conforming inputs, hence (Section hypothesis about the capture mechanism, named in the trusted base) captured decorated = captured original. What torch.jit.trace / torch.jit.script / torch.compile really do is runtime behaviour the model cannot exhibit: tested on a module family against undecorated twins (quick: eager, trace, script; thorough adds torch.compile).", "DESIGN.md 7 C19"),
-    "C20": ("proof", "Finite theorem C20_config over coq/gen/GenConfig.v, regenerated on every run from fresh interpreters with a masking import hook (8 masks), against the hand model of the if/elif chains; plus one accepted / one rejected checked call per available library in each interpreter.", "DESIGN.md 7 C20"),
+    "C05": ("proof", "Theorems C05_parse_eval / C05_parse_eval_named: every string of the stratified grammar is accepted, parsed to the grammar's postfix program and evaluates to the arithmetic value under every identifier-keyed scope (lexer round trip, count check, shunting-yard invariant, postfix evaluation; no bound on nesting or length)." + CORR, "DESIGN.md 7 C05"),
+    "C06": ("proof", "Theorems C06_accept_sound / C06_only_syntax_error / C06_no_late_error for every string (AcceptSound, ShapeSound: an accepted string consists of documented dimension forms with the grammar's postfix program, a rejection is SyntaxError, later evaluation fails only for unbound names or undefined arithmetic). Correspondence: corpus, exhaustive alphabet strings, mutations, identifier positions, noise; reference = independent recogniser." + CORR, "DESIGN.md 7 C06"),
+    "C07": ("proof", "Theorems C07_args_first / C07_return_checked / C07_value_only_after_both on the phase structure of run_call + correspondence with a side-effect log in the wrapped body: one fault in a single argument position or only in the return value." + CORR, "DESIGN.md 7 C07"),
+    "C08": ("proof", "Theorems C08_first_failing_tensor / C08_tensor_report / C08_axis_report / C08_only_dltype_or_arithmetic (Reports, NoCrash: what a rejection asserts is true of the named tensor under the bindings established before it; the only non-DLType exceptions are the arithmetic ones = known finding K1). Correspondence: single-fault reports field by field, multi-fault factuality." + CORR, "DESIGN.md 7 C08"),
+    "C09": ("proof", "Theorems C09_history_isolated / C09_calls_commute / C09_decoration_order over World.v (alias-shared annotation objects, provider-owned mappings) for the repaired semantics, machine-checked refutations for the legacy one. Correspondence: families sharing aliases and long-lived provider dicts, random decoration order, 8-thread runs, nested calls; thread interleavings are tested, not proved." + CORR, "DESIGN.md 7 C09"),
+    "C10": ("proof", "Theorems C10_none_skipped / C10_non_optional_none / C10_present_value_as_under_T / C10_general_union / C10_union_refused_at_decoration + correspondence on contexts rich in optional hints (five spellings) and None patterns." + CORR, "DESIGN.md 7 C10"),
+    "C11": ("proof", "Theorems C11_elementwise / C11_one_element_tuple / C11_plain_positions_ignored / C11_element_names + correspondence on tuple hints of length 1-3 with plain positions, as parameter and return; reported element names compared." + CORR, "DESIGN.md 7 C11"),
+    "C12": ("proof", "Theorems C12_prebind / C12_provided_sizes_belong_to_the_assignment / C12_bad_provider / C12_self_needs_method / C12_consulted_every_call + histories with changing provider values (fresh / long-lived dict, rebinding / in place), self providers, objects without the protocol." + CORR, "DESIGN.md 7 C12"),
+    "C13": ("proof", "Theorems C13_identity / C13_explicit_wins / C13_environment for every environment string, enabled argument and decorator kind + every combination of DLTYPE_DISABLE x DLTYPE_DEBUG_MODE x logging level in fresh interpreters on a fixed corpus; pydantic-settings' bool table is trusted and probed.", "DESIGN.md 7 C13"),
+    "C14": ("proof", "Theorems C14_class_forms_queue_like_functions / C14_pydantic_is_one_context / C14_field_validation_is_assert_one + the same field list rendered as function, dataclass, NamedTuple and pydantic model with shuffled keyword order." + CORR, "DESIGN.md 7 C14"),
+    "C15": ("proof", "Finite theorem C15_shared_dtypes_library_independent over the regenerated tables; that check / context read an array only through its shape and dtype verdict is visible in the model's definitions and tested: every context under three library assignments + exhaustive class x shared dtype x library sweep." + CORR, "DESIGN.md 7 C15"),
+    "C16": ("proof", "PARTIAL. Proved: C16_exception_passthrough, C16_value_passthrough. Name/doc/signature, argument forwarding for 9 signature shapes, exception identity, method kinds, NamedTuple / 7 dataclass option sets (fields, equality, repr, isinstance, immutability, pickling) are CPython object-model behaviour without decision logic: compared against undecorated twins (a test, labelled as such).", "DESIGN.md 7 C16"),
+    "C17": ("proof", "PARTIAL. Theorems C17_field_order / C17_fresh_context_per_validation / C17_optional_none_skipped / C17_assignment_refuted (= known finding K2) + histories of constructions / model_validate / assignments, nested models, class-definition dtype cross-check; model_dump / iteration / repr compared by the harness only." + CORR, "DESIGN.md 7 C17"),
+    "C18": ("proof", "Theorem C18_symbolic: for every tree Python's operators can build (non-negative constants) the printed string is accepted and evaluates to the tree's own arithmetic value (SymbolicProof.embed_correct + decimal round trip + C05). Correspondence: trees built by Python's evaluation of generated source; demanded size vs plain integer evaluation; K4 listed." + CORR, "DESIGN.md 7 C18"),
+    "C19": ("proof", "PARTIAL. Theorems C19_wrapper_transparent and C19_capture_equal (under the Section hypothesis capture_extensional about torch, named in the trusted base). torch.jit.trace / script / compile are runtime behaviour the model cannot exhibit: tested on 6 modules against undecorated twins (quick: eager, trace, script; thorough adds torch.compile).", "DESIGN.md 7 C19"),
+    "C20": ("proof", "Finite theorem C20_config over coq/gen/GenConfig.v, regenerated on every run from fresh interpreters with a masking import hook (8 masks), against the hand model of the if/elif chains; plus one accepted / one rejected checked call per available library.", "DESIGN.md 7 C20"),
 }
 TECH = {p: "Coq 8.16 proof about a hand-written executable model + extracted-model/implementation correspondence (differential execution)" for p in LEVEL}
 TECH["C13"] = "Coq 8.16 theorems over the configuration model + exhaustive fresh-interpreter correspondence"
@@ -60,7 +60,7 @@ def main() -> None:
         "engines": [{"name": "coq+correspondence", "path": "/verif/coq, /verif/ocaml, /verif/harness", "serves_properties": [c["property_id"] for c in checks], "kind_free_text": "Coq 8.16 model + theorems; model extracted to OCaml and run against the implementation on generated inputs"}],
         "checks": checks,
         "not_applicable": na,
-        "notes": "See DESIGN.md. Genuine defects found are repaired by fix: commits in /repo or listed in known_findings.json.",
+        "notes": "See DESIGN.md. 13 genuine defects were repaired by fix: commits in /repo (known_findings.json lists them as fixed); K1, K2, K4 are listed known findings. C16, C17, C19 are partial (DESIGN.md 7, 10).",
     }
     (V / "MANIFEST.json").write_text(json.dumps(m, indent=1) + "\n")
     print(f"{len(checks)} checks, {len(na)} not claimed")
